@@ -27,6 +27,32 @@ void freeAllMemory(primesieve::iterator* it)
   }
 }
 
+/// Used if generate_next_primes() or generate_prev_primes() throw
+/// an exception (e.g. next prime > 2^64 or std::bad_alloc). Puts
+/// the iterator back to the position it had before the call (like
+/// jump_to() but optionally excluding the start number) so that
+/// the iterator can still be used afterwards.
+void resetPosition(primesieve::iterator* it,
+                   uint64_t start,
+                   bool includeStart)
+{
+  it->i_ = 0;
+  it->size_ = 0;
+  it->start_ = start;
+  it->primes_ = nullptr;
+
+  if (it->memory_)
+  {
+    using primesieve::IteratorData;
+    auto& iterData = *(IteratorData*) it->memory_;
+    iterData.stop = start;
+    iterData.dist = 0;
+    iterData.include_start_number = includeStart;
+    iterData.deletePrimeGenerator();
+    iterData.deletePrimes();
+  }
+}
+
 } // namespace
 
 namespace primesieve {
@@ -123,6 +149,15 @@ iterator::~iterator()
 
 void iterator::generate_next_primes()
 {
+  // Current position: right after the last prime of the
+  // buffer or, if the buffer is empty, at start_.
+  bool hasLast = size_ > 0;
+  uint64_t pos = hasLast ? primes_[size_ - 1] : start_;
+  bool includePos = !hasLast && (!memory_ ||
+      ((IteratorData*) memory_)->include_start_number);
+
+  try
+  {
   if (!memory_)
     memory_ = new IteratorData(start_);
 
@@ -152,10 +187,25 @@ void iterator::generate_next_primes()
     else
       return;
   }
+  }
+  catch (...)
+  {
+    resetPosition(this, pos, includePos);
+    throw;
+  }
 }
 
 void iterator::generate_prev_primes()
 {
+  // Current position: right before the first prime of the
+  // buffer or, if the buffer is empty, at start_.
+  bool hasFirst = size_ > 0;
+  uint64_t pos = hasFirst ? primes_[0] : start_;
+  bool includePos = !hasFirst && (!memory_ ||
+      ((IteratorData*) memory_)->include_start_number);
+
+  try
+  {
   if (!memory_)
     memory_ = new IteratorData(start_);
 
@@ -181,6 +231,12 @@ void iterator::generate_prev_primes()
     i_ = size_;
   }
   while (!size_);
+  }
+  catch (...)
+  {
+    resetPosition(this, pos, includePos);
+    throw;
+  }
 }
 
 } // namespace
